@@ -106,7 +106,7 @@ func (c *Ctx) resolveStringObject(v ssa.Value) (string, bool) {
 
 func runC11(c *Ctx, r *Report) {
 	r.Rule("C11.R1", "canonical representation: every value boxed as a map or array is in the form (SmallMap / *BigMap / SmallArray / BigArray) that the module's type switches match")
-	r.Rule("C11.R2", "comparator range (shared with C12.R2): Cmp returns only -1, 0, 1, which SmallMap.get's `case 1` / `case 0` and the binary search rely on")
+	r.Rule("C11.R2", "one key order for both representations: Cmp returns only -1, 0, 1 (shared with C12.R2), which SmallMap.get's `case 1` / `case 0` and the binary search rely on; SmallMap.get compares (stored, searched) with Cmp on every iteration and on no other criterion; CompareKeys is Cmp on the two keys on every path (shared with C12.R1)")
 	r.Rule("C11.R3", "sortedness by construction: MakeQuad call sites pass constant keys in strictly increasing order; a freshly allocated pair storage receives bulk copies from at most one existing (sorted) map, everything else goes through the search-based Set; in-place updates and insertions use the index returned by the search")
 	r.Rule("C11.R4", "small/large sibling agreement of type switches over map representations (shared with C06.R2)")
 
@@ -122,6 +122,13 @@ func runC11(c *Ctx, r *Report) {
 		runC12(c, sub)
 		n := 0
 		for _, o := range sub.Obls {
+			if o.Rule == "C12.R1" && strings.HasPrefix(o.Desc, "CompareKeys") {
+				if o.status == FAIL {
+					r.Fail("C11.R2", o.Func, o.Desc, o.Pos, o.Reason)
+				} else {
+					r.Ok("C11.R2", o.Func, o.Desc, o.Pos)
+				}
+			}
 			if o.Rule == "C12.R2" && strings.HasPrefix(o.Desc, "return value is in") {
 				n++
 				if o.status == FAIL {
@@ -139,6 +146,9 @@ func runC11(c *Ctx, r *Report) {
 			// operands: stored key first, searched key second
 			a := call.Common().Args
 			okOrder := a[1] == ssa.Value(get.Params[1])
+			if vc, isCall := a[1].(*ssa.Call); isCall && isCallTo(vc, c.Fn("object", "Value")) && vc.Common().Args[0] == ssa.Value(get.Params[1]) {
+				okOrder = true // the searched key dereferenced once up front
+			}
 			r.Check(okOrder, "C11.R2", ssaFuncName(get), "linear search compares (stored key, searched key)", c.Pos(call.Pos()), "the search compares in the other direction: the insertion point test `== 1` then means the opposite")
 			consts := map[int64]bool{}
 			for _, ref := range *call.Referrers() {
@@ -149,6 +159,50 @@ func runC11(c *Ctx, r *Report) {
 				}
 			}
 			r.Check(consts[1] && consts[0], "C11.R2", ssaFuncName(get), "linear search stops on 1 (greater) and 0 (found)", c.Pos(call.Pos()), "SmallMap.get no longer distinguishes `stored key greater` (insertion point) from `found`")
+			// every iteration compares: no stored key is skipped (or accepted) on any other criterion
+			var hdr *ssa.BasicBlock
+			for _, b := range get.Blocks {
+				for _, in := range b.Instrs {
+					if phi, ok := in.(*ssa.Phi); ok && strings.Contains(phi.Comment, "rangeint") {
+						hdr = b
+					}
+				}
+			}
+			if hdr == nil {
+				r.Undecided("C11.R2: loop of SmallMap.get not recognised")
+			} else {
+				// from the top of an iteration, the next iteration (back to hdr) or a return is only reached through the comparison
+				first := hdr.Instrs[0]
+				for _, in := range hdr.Instrs {
+					if _, isPhi := in.(*ssa.Phi); !isPhi {
+						first = in
+						break
+					}
+				}
+				bad := mustPassBefore(first, func(x ssa.Instruction) bool { return x == ssa.Instruction(call) }, func(x ssa.Instruction) bool {
+					if isReturn(x) {
+						// the return after the loop (key greater than every stored key) is reached without comparing when the map is empty
+						return x.Block().Dominates(hdr) == false && hdr.Dominates(x.Block()) && loopBody(hdr, x.Block())
+					}
+					// the back edge: an instruction that jumps to hdr from inside the loop
+					if j, ok := x.(*ssa.Jump); ok && j.Block().Succs[0] == hdr && hdr.Dominates(j.Block()) {
+						return true
+					}
+					if ifi, ok := x.(*ssa.If); ok && hdr.Dominates(ifi.Block()) && ifi.Block() != hdr {
+						for _, s := range ifi.Block().Succs {
+							if s == hdr {
+								return true
+							}
+						}
+					}
+					return false
+				})
+				if bad != nil {
+					r.Fail("C11.R2", ssaFuncName(get), "every iteration of the linear search calls Cmp on the stored key", c.Pos(call.Pos()), "an iteration can move on (or return) without comparing: keys are skipped on a criterion other than the language's key order (a type test is not that order: integers and floats sort together by value), so insertion point and lookup disagree with the large map and with ==", c.tracePath(bad)...)
+				} else {
+					r.Ok("C11.R2", ssaFuncName(get), "every iteration of the linear search calls Cmp on the stored key", c.Pos(call.Pos()))
+				}
+			}
 		}
 		_ = n
 	}
@@ -398,4 +452,25 @@ func init() {
 		assume:  []string{"slices.BinarySearchFunc and slices.Insert behave per their contract on a sorted slice", "Cmp is a total order on keys (C12)"},
 		run:     runC11,
 	})
+}
+
+// loopBody: block b belongs to the loop headed by hdr (b can reach hdr again).
+func loopBody(hdr, b *ssa.BasicBlock) bool {
+	seen := map[*ssa.BasicBlock]bool{}
+	stack := []*ssa.BasicBlock{b}
+	for len(stack) > 0 {
+		x := stack[len(stack)-1]
+		stack = stack[:len(stack)-1]
+		if seen[x] {
+			continue
+		}
+		seen[x] = true
+		for _, s := range x.Succs {
+			if s == hdr {
+				return true
+			}
+			stack = append(stack, s)
+		}
+	}
+	return false
 }
